@@ -79,3 +79,14 @@ package ledgerstore
 //@   ensures t.PostCommitVolumes != nil ==> ret.PreCommitVolumes != nil
 //@   ensures t.PostCommitEffectiveVolumes != nil ==> ret.PreCommitEffectiveVolumes != nil
 //@   property C04
+
+// ---- C17: what a cursor token carries. The options of a list query travel inside the token as JSON: every field is
+// carried (exported, not tagged "-", distinct names), an interface-typed field (the filter) is only decodable because the
+// struct parses it itself, and no other custom or promoted MarshalJSON / UnmarshalJSON decides the form behind the tags.
+//@ jsonfields ledgerstore.PaginatedQueryOptions // C17
+//@ jsonfields ledgerstore.PITFilterWithVolumes // C17
+//@ jsonfields ledgerstore.PITFilter // C17
+// the decoder of the options: the filter is parsed back from the JSON form the builders render (query.ParseJSON), page
+// size and options are read by their tags; an absent or null filter stays nil
+//@ func (*ledgerstore.PaginatedQueryOptions[T]).UnmarshalJSON
+//@   trusted encoding/json and query.ParseJSON are library code; that the decoded filter builds the same predicate as the encoded one is shown by the round-trip replay test (replays/findings)
